@@ -23,6 +23,7 @@ DP = "puan.modules.configurator.StingyConfigurator.default_prios"
 ANY = "puan.modules.configurator.Any.__init__"
 VFP = "puan.ndarray.ge_polyhedron_config._vectors_from_prios"
 ND = "puan.ndarray.integer_ndarray.ndint_compress"
+OCC = "puan.modules.configurator._occurrences"
 NEW = "puan.ndarray.ge_polyhedron_config.__new__"
 
 
@@ -33,6 +34,25 @@ def _getattr_defaults(t, attr):
         if x[0] == 'call' and x[1] == T.G('getattr') and len(x[2]) == 3 and x[2][1] == T.C(attr):
             out.append(x[2][2])
     return out
+
+
+def _tag_source_rules(tdp, where):
+    """E7 (adequacy of a de-duplication key, as in C10): the `prio` tag is object state that the key flatten() de-duplicates
+    by (AtLeast.__eq__ / __hash__: id, sign, value, children) does not cover, and identical sub-propositions share a generated
+    id. A reader of the tag must therefore range over every occurrence of every node, never over flatten()."""
+    reads = [x for x in T.walk(tdp) if x[0] == 'call' and x[1] == T.G('getattr') and len(x[2]) >= 2 and x[2][1] == T.C('prio')]
+    over_flatten = [x for x in T.walk(tdp) if x[0] == 'call' and x[1][0] == 'attr' and x[1][2] == 'flatten']
+    over_all = [x for x in T.walk(tdp) if x[0] == 'call' and x[1][0] in ('glob', 'var') and x[1][1].split('.')[-1] == OCC.split('.')[-1]]
+    if reads and over_flatten:
+        return [Ob("E7.tag-dedupe", "E7.dedupe-key", where, "violation",
+                   "default_prios reads the `prio` tag from the elements of flatten(): flatten() keeps ONE object per id (set of "
+                   "objects equal by id) and may keep the untagged twin of a tagged default branch - the default is then lost. "
+                   "Failing input: StingyConfigurator(cc.Xor('a','b','f', default='f'), pg.Imply('d', pg.Any('a','b'))).select({}) "
+                   "picks a instead of the default f", key="E7:tag-dedupe:flatten")]
+    if reads and over_all:
+        return [Ob("E7.tag-dedupe", "E7.dedupe-key", where, "ok",
+                   "the prio tag is read over every occurrence of every node (no de-duplication between the tag and its reader)")]
+    return [Ob("E7.tag-dedupe", "E7.dedupe-key", where, "inconclusive", "source of the nodes whose `prio` is read not recognised")]
 
 
 def _vfp_rules(tv, where):
@@ -69,6 +89,7 @@ def rules(ctx):
         obs.append(Ob("E8.default-fill", "E8.constants", where, "ok" if ok else "violation",
                       f"untagged nodes get prio {fill[1]} (negative: selecting anything costs)" if ok else
                       f"default fill {fill[1]} is not negative: stinginess is lost", key="E8:default-fill"))
+    obs += ctx.settle_roles("C14", DP, _tag_source_rules(tdp, ctx.loc(DP)), _tag_source_rules(T.canonical(ctx.ref_term(DP)), ctx.loc(DP)))
     # tag in cc.Any: inner.prio := getattr(inner,'prio',d) - 1  -> strictly below the fill
     tags = []
     for x in T.walk(tany):
